@@ -55,6 +55,24 @@ fn gen_string(t: &mut Tape, family: usize) -> (String, bool) {
             let s = if s.contains('\n') || s.contains('\t') { "a   b" } else { s };
             (format!("CREATE{}(:M{}{{name:{}'{}'}})", w(t), w(t), w(t), s), true)
         }
+        // an earlier literal whose text can derail quote/comment tracking (escaped backslash or
+        // quote at its end, the other quote character, comment openers), then a literal whose
+        // inner whitespace matters
+        8 => {
+            const PRE: [&str; 10] = ["'x\\\\'", "'\\''", "\"q\\\\\"", "\"\\\"\"", "'a\"b'", "\"a'b\"", "'//'", "'/*'", "\"*/\"", "'\\\\\\''"];
+            let pre = PRE[t.choose(PRE.len())];
+            let s = INNER[t.choose(INNER.len())];
+            let s = if s.contains('\n') || s.contains('\t') { "a  b" } else { s };
+            let q = if t.chance(1, 2) { '\'' } else { '"' };
+            // mostly fixed outer whitespace: the strings of one sequence should differ ONLY inside
+            // the second literal (a derailed tracker treats the text between the literals as
+            // literal text, so differing outer whitespace would hide the collision)
+            if t.chance(3, 4) {
+                (format!("RETURN {pre} AS p, {q}{s}{q} AS x"), false)
+            } else {
+                (format!("{}{}{}{}AS{}p,{}{q}{}{q}{}AS{}x", kw(t, "RETURN"), w(t), pre, w(t), w(t), w(t), s, w(t), w(t)), false)
+            }
+        }
         _ => {
             let s = INNER[t.choose(INNER.len())];
             let s = if s.contains('\n') || s.contains('\t') { "a b" } else { s };
@@ -68,8 +86,8 @@ pub fn gen_sequence(tape: &[u16]) -> Vec<(String, bool)> {
     let n = 2 + t.choose(7);
     let mut out = Vec::new();
     // stay in one or two families so that near-duplicates meet
-    let fam_a = t.choose(8);
-    let fam_b = t.choose(8);
+    let fam_a = t.choose(9);
+    let fam_b = t.choose(9);
     for _ in 0..n {
         let fam = if t.chance(3, 4) { fam_a } else { fam_b };
         out.push(gen_string(&mut t, fam));
@@ -168,7 +186,7 @@ pub fn run(args: &Args) {
     let mut ev = Evidence::new(
         args,
         "exploration",
-        "sequences (2-8) of query strings from near-duplicate families (whitespace runs inside and outside string literals, // and /* */ comments around line breaks, keyword case, trailing ';'), reads via QueryEngine::execute and writes via execute_mut; each element's result (and graph after writes) compared with parse_query(exact string) + fresh executor. Non-trivial = sequence holds two different strings whose whitespace-collapsed forms are equal; distinct = distinct sequences.",
+        "sequences (2-8) of query strings from near-duplicate families (whitespace runs inside and outside string literals, // and /* */ comments around line breaks, keyword case, trailing ';', an earlier literal ending in an escaped backslash/quote or holding the other quote character or a comment opener), reads via QueryEngine::execute and writes via execute_mut; each element's result (and graph after writes) compared with parse_query(exact string) + fresh executor. Non-trivial = sequence holds two different strings whose whitespace-collapsed forms are equal; distinct = distinct sequences.",
     );
     let kf = Known::load(args);
     let _ = &kf;
